@@ -420,7 +420,7 @@ class ReportSlaveIdResponse(ModbusResponse):
         :param data: The packet data to decode
         '''
         self.byte_count = byte2int(data[0])
-        self.identifier = data[1:self.byte_count + 1]
+        self.identifier = data[1:self.byte_count]
         status = byte2int(data[-1])
         self.status = status == ModbusStatus.SlaveOn
 
